@@ -114,9 +114,10 @@ def arc_lat_extremes(a, b):
     if nn > 1e-15:
         n = (n[0] / nn, n[1] / nn, n[2] / nn)
         # projection of z on plane: z - (z.n) n
-        p = (-n[2] * n[0], -n[2] * n[1], 1.0 - n[2] * n[2])
+        # (1 - n_z^2 written as n_x^2 + n_y^2: no cancellation for near-equatorial circles)
+        p = (-n[2] * n[0], -n[2] * n[1], n[0] * n[0] + n[1] * n[1])
         pn = norm(p)
-        if pn > 1e-12:
+        if pn > 1e-300:
             p = (p[0] / pn, p[1] / pn, p[2] / pn)
             for q in (p, (-p[0], -p[1], -p[2])):
                 # q between a and b on the minor arc?
